@@ -39,7 +39,8 @@ def LinksOK : Prop :=
     s.org (s.nxt e) = s.dst e ∧
     s.org e ≠ s.dst e ∧
     (s.fc e ≠ 0 → s.nxt (s.nxt (s.nxt e)) = e) ∧
-    (1 < s.nF → s.fc e ≠ s.fc (s.rv e))
+    (1 < s.nF → s.fc e ≠ s.fc (s.rv e)) ∧
+    s.rv e < s.nE ∧ s.rv (s.rv e) = e
 
 /-- `out_edge` of every vertex and `adjacent_edge` of every face point at a matching half-edge;
 with fewer than two vertices there are no edges and nothing points anywhere -/
